@@ -57,6 +57,86 @@ def produce(doc, fmt, dest, scratch):
         return fh.read()
 
 
+def dispatch_correspondence(scratch):
+    """the model of the text/bytes dispatch (IODispatch.v) against the implementation: for every format x destination
+    kind x source kind, whether a str or a bytes is written and what the format's parser is handed — observed from
+    outside by wrapping json.load, lxml's etree.parse and rdflib's ConjunctiveGraph.parse — must be the kind the model
+    predicts, and must be the payload itself (or exactly its UTF-8 bytes), as C16_same_parser_input states."""
+    import json as _json
+    from unittest import mock
+    import lxml.etree as ET
+    import rdflib
+    import prov.model as M
+    from harness.sexp import dumps, loads
+    doc = simpledocs.all_strings_doc()
+    pred = {}
+    for row in loads(common.run_model_batch([dumps(["iodispatch"])])[0]):
+        if isinstance(row, list):
+            pred[(row[0], row[1], row[2])] = (row[3], row[4])
+    seen = []
+    real_json_load, real_parse, real_rdf_parse = _json.load, ET.parse, rdflib.ConjunctiveGraph.parse
+
+    def json_load(stream, *a, **k):
+        data = stream.read()
+        seen.append(("text" if isinstance(data, str) else "bytes", data))
+        return _json.loads(data, *a, **k)
+
+    def xml_parse(source, *a, **k):
+        if hasattr(source, "read"):
+            data = source.read()
+            seen.append(("text" if isinstance(data, str) else "bytes", data))
+            return real_parse(io.BytesIO(data) if isinstance(data, bytes) else io.StringIO(data), *a, **k)
+        seen.append(("name", source))
+        return real_parse(source, *a, **k)
+
+    def rdf_parse(self, source=None, *a, **k):
+        if hasattr(source, "read"):
+            data = source.read()
+            seen.append(("text" if isinstance(data, str) else "bytes", data))
+            return real_rdf_parse(self, data=data, *a, **k)
+        seen.append(("other", repr(source)[:80]))
+        return real_rdf_parse(self, source, *a, **k)
+    bad = []
+    n = 0
+    for fmt in ("json", "xml", "rdf"):
+        payload = doc.serialize(format=fmt)
+        for dest in ("string", "text", "binary", "path"):
+            art = produce(doc, fmt, dest, scratch)
+            akind = "str" if isinstance(art, str) else "bytes"
+            as_text = art if isinstance(art, str) else art.decode("utf-8")
+            as_bytes = art if isinstance(art, bytes) else art.encode("utf-8")
+            if fmt != "rdf" and not (art == payload if akind == "str" else art == payload.encode("utf-8")):
+                if not (fmt == "xml" and same_xml(as_text, payload)):
+                    bad.append({"what": "what is written is not the payload (or its UTF-8 bytes)", "format": fmt, "destination": dest})
+            fp = os.path.join(scratch, "disp_%s_%s.%s" % (fmt, dest, fmt))
+            with open(fp, "wb") as fh:
+                fh.write(as_bytes)
+            sources = {"content-str": dict(content=as_text), "content-bytes": dict(content=as_bytes),
+                       "text-stream": dict(source=io.StringIO(as_text)), "binary-stream": dict(source=io.BytesIO(as_bytes)),
+                       "path": dict(source=fp)}
+            for sk, kw in sources.items():
+                n += 1
+                del seen[:]
+                try:
+                    with mock.patch.object(_json, "load", json_load), mock.patch.object(ET, "parse", xml_parse), \
+                            mock.patch.object(rdflib.ConjunctiveGraph, "parse", rdf_parse):
+                        M.ProvDocument.deserialize(format=fmt, **kw)
+                except Exception as e:
+                    bad.append({"what": "deserialize raised under observation", "format": fmt, "destination": dest, "source": sk, "exc": repr(e)[:200]})
+                    continue
+                want = pred.get((fmt, dest, sk))
+                got = seen[0] if seen else ("nothing", None)
+                if want is None or want[0] != akind or want[1] != got[0]:
+                    bad.append({"what": "dispatch differs from IODispatch", "format": fmt, "destination": dest, "source": sk,
+                                "model": want, "implementation": [akind, got[0]]})
+                    continue
+                handed = got[1]
+                ok = (handed == as_text) if got[0] == "text" else (handed == as_bytes)
+                if not ok:
+                    bad.append({"what": "the parser is not handed the payload that was written", "format": fmt, "destination": dest, "source": sk})
+    return n, bad
+
+
 def same_xml(a, b):
     from lxml import etree
     def canon(x):
@@ -189,7 +269,22 @@ def run(tier, seed, log, model_runs=True, enlarged=False):
                 violations.append({"kind": "failing-input", "failure": f, "provn": d.get_provn()[:1500]})
     finally:
         shutil.rmtree(scratch, ignore_errors=True)
-    log("ran %d serialize/deserialize/read calls on %d documents in %.1fs" % (total, ndocs + nbig, time.time() - t0))
+    log("ran %d serialize/deserialize/read calls on %d documents in %.1fs" % (total, ndocs + nbig + 1, time.time() - t0))
+    ndisp, dbad = 0, []
+    if model_runs:
+        scratch2 = tempfile.mkdtemp(prefix="c16d_")
+        try:
+            ndisp, dbad = dispatch_correspondence(scratch2)
+        except Exception:
+            violations.append({"kind": "harness-error", "what": "harness error", "detail": traceback.format_exc()[-1500:]})
+        finally:
+            shutil.rmtree(scratch2, ignore_errors=True)
+        log("text/bytes dispatch: %d format x destination x source cells, %d disagreements" % (ndisp, len(dbad)))
+        for b in dbad[:2]:
+            violations.append({"kind": "broken-correspondence", "what": "the text/bytes dispatch differs from the model",
+                               "first_difference": json.dumps(b)[:800],
+                               "theorem": "correspondence IODispatch.artefact / deserialize_input ~ ProvDocument.serialize / deserialize and "
+                                          "the serializers (C16_same_text, C16_same_parser_input are stated over the model)"})
     bad_laws = {k: v for k, v in laws.items() if "accepts" in k}
     if bad_laws:
         violations.append({"kind": "broken-correspondence", "what": "a law assumed about the external parsers does not hold",
